@@ -339,7 +339,8 @@ class MuxSocketTransportSink(ClientMessageSink):
       The ClientChannelSinkStack associated with the tag's response.
     """
     tup = self._tag_map.pop(tag, None)
-    self._tag_pool.release(tag)
+    if tup is not None:
+      self._tag_pool.release(tag)
     return tup
 
   @abstractmethod
